@@ -7,6 +7,9 @@ import (
 )
 
 func tryRenameFile(from string, to string) error {
+	if err := verifPoint("before_rename"); err != nil {
+		return err
+	}
 	if renameError := os.Rename(from, to); renameError != nil {
 		log.Debugf("Error renaming from %v to %v, attempting to copy contents", from, to)
 		log.Debug(renameError.Error())
@@ -16,7 +19,13 @@ func tryRenameFile(from string, to string) error {
 		if copyError := copyFileContents(from, to); copyError != nil {
 			return fmt.Errorf("failed copying from %v to %v: %w", from, to, copyError)
 		}
+		if err := verifPoint("copy_done_before_remove"); err != nil {
+			return err
+		}
 		tryRemoveTempFile(from)
+	}
+	if err := verifPoint("after_rename"); err != nil {
+		return err
 	}
 	return nil
 }
@@ -34,17 +43,29 @@ func copyFileContents(src, dst string) (err error) {
 	// ignore CWE-22 gosec issue - that's more targeted for http based apps that run in a public directory,
 	// and ensuring that it's not possible to give a path to a file outside thar directory.
 
+	if err := verifPoint("copy_open_src"); err != nil {
+		return err
+	}
 	in, err := os.Open(src) // #nosec
 	if err != nil {
 		return err
 	}
 	defer safelyCloseFile(in)
+	if err := verifPoint("copy_create_dst"); err != nil {
+		return err
+	}
 	out, err := os.Create(dst) // #nosec
 	if err != nil {
 		return err
 	}
 	defer safelyCloseFile(out)
+	if err := verifPoint("copy_after_truncate"); err != nil {
+		return err
+	}
 	if _, err = io.Copy(out, in); err != nil {
+		return err
+	}
+	if err := verifPoint("copy_before_sync"); err != nil {
 		return err
 	}
 	return out.Sync()
